@@ -1,4 +1,5 @@
 """C18 - AST visitors reach every node once with balanced enter/leave; edits stay local."""
+from vf import engine_p
 from vf import frontend
 from vf.report import MachineryDefect, Run
 
@@ -24,7 +25,7 @@ def check(tier, seed):
                 "contracts": "trace balanced, every non-Name node entered once, siblings in source order; delete/replace/skip local"})
     run.cov["rule"] = "one case per parsed corpus document (distinct texts); edit runs = (document, node position, action) triples"
     run.trusted("the parser (C01/C02) produces the documents; Node.to_dict() as structural view")
-    run.assume("no deductive obligation yet: _visit_method / ChainedVisitor call back into arbitrary visitor objects (higher-order); "
-               "contracts are evaluated at run time on the enumerated corpus only")
-    return run.finish("other", "bounded stand-in: visitor trace and edit-locality contracts on every document of the enumerated corpus",
+    run.assume("child-slot coverage of the _visit_* methods and ChainedVisitor are bounded only (evaluated at run time on the enumerated corpus)")
+    engine_p.run(run, 'C18')
+    return run.finish("other", "trace contracts over every syntactic path of the real function (Engine P, unbounded in the inputs, values abstracted) + bounded stand-in: visitor trace and edit-locality contracts on every document of the enumerated corpus",
                       checker_cmd="./check C18 --tier %s" % tier)
